@@ -14,6 +14,8 @@ Rec == ndJsonDeserialize(IOEnv.TRACE)
 VARIABLES l, done
 Init == l \in 1..Len(Rec) /\ done = 0
 Once == done = 0 /\ done' = 1 /\ l' = l
+\* the driver process was killed by the scenario (abort, stack overflow) or made no progress (hang)
+Died(e) == e.k \in {"hang", "abort"}
 Report(tag, why) == PrintT("@@" \o tag \o "|" \o ToString(l) \o "|" \o why)
 
 ----------------------------------------------------------------------------
@@ -63,7 +65,7 @@ C03Why(e) ==
     ELSE IF \E i \in 1..Len(opts) : e.edns[i].off # opts[i].off \/ e.edns[i].next # opts[i].next THEN "EDNS option extents" ELSE ""
   >>)
 C03(e) == LET w == C03Why(e) IN IF w = "" THEN TRUE ELSE Report("VIOLATION-C03", w)
-NextC03 == Once /\ C03(Rec[l])
+NextC03 == Once /\ (IF Died(Rec[l]) THEN Report("VIOLATION-C03", "the library " \o Rec[l].k \o "s") ELSE C03(Rec[l]))
 
 ----------------------------------------------------------------------------
 Opt1(x) == IF x = <<>> THEN 0 ELSE x[1]
@@ -92,11 +94,11 @@ C04Why(e) ==
     IF s.qq2 = <<sm.q_type, sm.q_class>> THEN "" ELSE "qtype_qclass() after the cache is filled"
   >>)
 C04(e) == LET w == C04Why(e) IN IF w = "" THEN TRUE ELSE Report("VIOLATION-C04", w)
-NextC04 == Once /\ C04(Rec[l])
+NextC04 == Once /\ (IF Died(Rec[l]) THEN Report("VIOLATION-C04", "the library " \o Rec[l].k \o "s") ELSE C04(Rec[l]))
 
 \* coverage facts about the packet of an event, for the evidence (printed by both steps)
 Facts(e) == LET p == e.pkt  m == Decode(p)  rs == AllRecs(m) IN
   PrintT("@@FACTS|" \o ToString(l) \o "|" \o ToJson([nrec |-> Len(rs), opt |-> IF HasOpt(m) THEN (IF Len(m.ar) = 1 THEN "only" ELSE IF OptIdxOf(m) = 1 THEN "first" ELSE IF OptIdxOf(m) = Len(m.ar) THEN "last" ELSE "middle") ELSE "none",
       ptrs |-> CName(p, 12).nptr + (IF rs = <<>> THEN 0 ELSE LET RECURSIVE S(_) S(i) == IF i > Len(rs) THEN 0 ELSE OwnerPtrs(p, rs[i]) + Canon(p, rs[i]).nptr + S(i + 1) IN S(1))]))
-NextC03F == Once /\ C03(Rec[l]) /\ (Rec[l].res = "ok" => Facts(Rec[l]))
+NextC03F == Once /\ (IF Died(Rec[l]) THEN Report("VIOLATION-C03", "the library " \o Rec[l].k \o "s") ELSE C03(Rec[l]) /\ (Rec[l].res = "ok" => Facts(Rec[l])))
 ====
